@@ -1015,8 +1015,36 @@ def c07_check(case):
         return f'parse raised {type(e).__name__}: {e}'
     if got != want:
         return f'parse {got!r} != recogniser {want!r}'
-    # iterparse and parse_triples: only totality here
-    for f in (lambda: list(penman.iterparse(s)), lambda: penman.parse_triples(s)):
+    # iterparse: the same recogniser applied repeatedly, as long as the next token is a comment or "(";
+    # the trees before an error are still yielded, the error is raised where parse() would raise it
+    trees_want, err_want, i, n = [], None, 0, len(toks)
+    while i < n and toks[i][0] in ('COMMENT', 'LPAREN'):
+        j = i
+        while j < n and toks[j][0] == 'COMMENT':
+            j += 1
+        if j >= n:
+            err_want = ('err', toks[-1][2], toks[-1][3] + len(toks[-1][1]))
+            break
+        r = spec_parse(toks[j:])
+        if r[0] != 'ok':
+            err_want = r
+            break
+        trees_want.append(r[1])
+        i = j + r[2]
+    trees_got, err_got = [], None
+    try:
+        for t in penman.iterparse(s):
+            trees_got.append(t.node)
+    except penman.DecodeError as e:
+        err_got = ('err', e.lineno, e.offset)
+    except RecursionError:
+        return None
+    except Exception as e:  # noqa: BLE001
+        return f'iterparse raised {type(e).__name__}: {e}'
+    if (trees_got, err_got) != (trees_want, err_want):
+        return f'iterparse {(trees_got, err_got)!r} != recogniser {(trees_want, err_want)!r}'
+    # parse_triples: only totality here (its recogniser is a clause of its own)
+    for f in (lambda: penman.parse_triples(s),):
         try:
             f()
         except penman.DecodeError:
@@ -2389,6 +2417,39 @@ def c17_check(case):
         if r3 != r1:
             return f'{name} gives a different result on a deep-copied/pickled argument'
         results[name] = r1
+    return c17_tree_history(g, m)
+
+
+def c17_tree_history(g, m):
+    """read-only calls on a tree (nodes(), interpret, compact format) before an in-place rearrangement
+    must not change what the tree says afterwards: compared with a tree that was never inspected"""
+    try:
+        text = penman.format(layout.configure(copy.deepcopy(g), model=m))
+        a, b = penman.parse(text), penman.parse(text)
+    except Exception:  # noqa: BLE001
+        return None
+    if a.node != b.node:
+        return None
+
+    def step(f):
+        try:
+            return f()
+        except Exception as e:  # noqa: BLE001
+            return 'EXC:' + type(e).__name__
+
+    def later(t):
+        step(lambda: layout.rearrange(t, key=m.canonical_order))
+        seen = step(lambda: [n[0] for n in t.nodes()])
+        g2 = step(lambda: snap(layout.interpret(t, m)))
+        txt = step(lambda: penman.format(t, compact=True))
+        step(lambda: t.reset_variables('{prefix}{j}'))
+        return repr((seen, g2, txt, t.node))
+    step(lambda: a.nodes())
+    step(lambda: layout.interpret(a, m))
+    step(lambda: penman.format(a, compact=True))
+    ra, rb = later(a), later(b)
+    if ra != rb:
+        return f'inspecting a tree before rearranging it in place changes later results: {ra} vs {rb}'
     return None
 
 
